@@ -434,7 +434,18 @@ def run_request(ctx, world, cfg, rq, now, hist):
     # ---- ORACLE (property text; independent of the model)
     oracle(ctx, world, cfg, rq, now, hist, rec, auth_ok, seen, outcome, fp_before, fp_after, jdb_before, jdb_after)
 
-    # ---- Coq case
+    # ---- Coq step
+    new_keys = jdb_after[len(jdb_before):]
+    term = "{| h_rq := %s; h_now := %s; h_obs_auth := %s; h_obs_parse := %s; h_new := %s |}" % (
+        cq_request(rq), coq_z(now), obs_auth, obs_parse, coq_list([coq_str(k) for k in new_keys], "pystr"))
+    return term, rec, obs_auth == "Unmodelled" or obs_parse == "Unmodelled"
+
+
+def history_term(ctx, world, cfg, jdb0, steps):
+    """the Coq hcase: static configuration of this history + its steps."""
+    c = world.c
+    epn = cfg["ep"]
+    ep = world.eps[epn]
     tab = world.tok_table(ep)
     kjs = coq_list(["(%s, %s)" % (coq_str(i), coq_list([cq_vkey(k) for k in ks], "vkey")) for i, ks in world.kj_iss.items()],
                    "(pystr * list vkey)")
@@ -444,18 +455,16 @@ def run_request(ctx, world, cfg, rq, now, hist):
         cfg_m = world.default_methods[epn]
     ep_cfg = "(@None (list meth))" if cfg_m is None else "(Some %s)" % cq_meths(cfg_m)
     targets = [ep.full_path] + ([ISS] if cfg["issuer_target"] else [])
+    if set(ep.allowed_target_uris()) != set(targets):
+        ctx.broken.append("allowed_target_uris() of %s is %r, the harness expected %r" % (epn, ep.allowed_target_uris(), targets))
     ep_t = "{| ep_name := %s; ep_methods := []; ep_targets := %s; ep_lookup := %s; ep_userinfo := %s |}" % (
         coq_str(ep.endpoint_name), coq_list([coq_str(t) for t in targets], "pystr"),
         coq_bool(hasattr(ep, "get_client_id_from_token")), coq_bool(epn == "userinfo"))
-    term = ("{| k_cx_cdb := %s; k_kj := {| kj_iss := %s; kj_own := %s |}; k_tok := %s; k_ep_cfg := %s; k_ep := %s; "
-            "k_rq := %s; k_now := %s; k_jdb := %s; k_obs_auth := %s; k_obs_parse := %s; k_jdb_after := %s |}" % (
+    return ("{| hc_cdb := %s; hc_kj := {| kj_iss := %s; kj_own := %s |}; hc_tok := %s; hc_ep_cfg := %s; hc_ep := %s; "
+            "hc_jdb0 := %s; hc_steps := %s |}" % (
                 cdb_t, kjs, coq_list([cq_vkey(k) for k in world.kj_own], "vkey"),
                 coq_list(["(%s, %s)" % (coq_str(al), cq_tokres(r)) for al, r in tab.items()], "(pystr * tok_res)"),
-                ep_cfg, ep_t, cq_request(rq), coq_z(now), coq_list([coq_str(k) for k in jdb_before], "pystr"),
-                obs_auth, obs_parse, coq_list([coq_str(k) for k in jdb_after], "pystr")))
-    if set(ep.allowed_target_uris()) != set(targets):
-        ctx.broken.append("allowed_target_uris() of %s is %r, the harness expected %r" % (epn, ep.allowed_target_uris(), targets))
-    return term, rec, obs_auth == "Unmodelled" or obs_parse == "Unmodelled"
+                ep_cfg, ep_t, coq_list([coq_str(k) for k in jdb0], "pystr"), coq_list(steps, "hstep")))
 
 
 # ------------------------------------------------------------------ the oracle
@@ -514,8 +523,12 @@ def oracle(ctx, world, cfg, rq, now, hist, rec, auth_ok, seen, outcome, fp_befor
             ctx.violation("refusal-continues", "client authentication raised but parse_request went on", rec)
         ctx.count("verdict:refused")
         return
+    configured = cfg["methods"] if cfg["methods"] != "default" else world.default_methods[epn]
     if auth_ok == {}:
         meth, cid = None, None
+        if configured:
+            ctx.violation("unauthenticated-pass", "%s has the method list %r, no method accepted the request, yet it was "
+                          "not refused" % (epn, configured), rec)
     else:
         meth, cid = auth_ok.get("method"), auth_ok.get("client_id")
     # how does parse_request treat the request?
@@ -537,7 +550,6 @@ def oracle(ctx, world, cfg, rq, now, hist, rec, auth_ok, seen, outcome, fp_befor
         ctx.violation("client-mixup", "%s: authenticated %r but request handed on for %r" % (epn, cid, treated), rec)
     ctx.count("verdict:authenticated")
     ctx.count("accepted-by:" + meth)
-    configured = cfg["methods"] if cfg["methods"] != "default" else world.default_methods[epn]
     ep_allowed = METHS if configured is None else (["none"] if configured == [] else configured)
     if meth not in ep_allowed:
         ctx.violation("method-not-allowed-endpoint", "%s: accepted through %s, endpoint allows %r" % (epn, meth, ep_allowed), rec)
@@ -877,6 +889,14 @@ def run_history(ctx, world, cfg, mode, rng, clock, tag, cases):
             queue.append(rng.choice(filler) + (None,))
         queue.insert(at, ("replay-after-%d:%s" % (k, n), None, r))
     resolved = {}
+    seg = {"jdb0": [], "steps": [], "recs": []}
+
+    def flush():
+        if seg["steps"]:
+            cases.append((history_term(ctx, world, cfg, seg["jdb0"], seg["steps"]),
+                          {"cfg": cfg, "variant": world.variant, "tag": tag, "steps": seg["recs"]}))
+        seg["steps"], seg["recs"] = [], []
+
     for name, tmpl, replay_of in queue:
         if mode != "genuine" and rng.random() < 0.08:
             clock.tick(rng.choice([1, 14, 15, 16, 60]))
@@ -886,6 +906,7 @@ def run_history(ctx, world, cfg, mode, rng, clock, tag, cases):
         else:
             rq = resolve_times(tmpl, now)
             resolved[id(tmpl)] = rq
+        jdb_pre = list(world.c.jti_db.keys())
         term, rec, unmod = run_request(ctx, world, cfg, rq, now, hist)
         rec["name"] = name
         usable = any(rq.get(k) is not None for k in ("hdr", "client_id", "access_token", "assertion", "request"))
@@ -899,10 +920,17 @@ def run_history(ctx, world, cfg, mode, rng, clock, tag, cases):
         a = rec["auth"]
         ctx.count("auth:" + ("none-called" if a is None else (a[1] if a[0] == "exc" else ("ok:" + str(a[1].get("method"))))))
         if unmod:
+            # cannot happen unless the spies were bypassed; cut the history here
             ctx.unmodelled += 1
             ctx.count("unmodelled")
+            flush()
+            seg["jdb0"] = list(world.c.jti_db.keys())
         else:
-            cases.append((term, rec))
+            seg["steps"].append(term)
+            seg["recs"].append({"i": len(seg["recs"]), "name": name, "request": rq, "now": now, "auth": rec["auth"],
+                                "handed_on": {k: v for k, v in rec["seen"].items() if k != "auth"}, "outcome": rec["outcome"],
+                                "jti_db_before": jdb_pre if len(jdb_pre) < 8 else "...%d keys" % len(jdb_pre)})
+    flush()
 
 
 def run(ctx):
@@ -920,8 +948,9 @@ def run(ctx):
         for i, (variant, cfg, mode) in enumerate(cfgs):
             run_history(ctx, worlds[variant], cfg, mode, rng, clock, "h%d" % i, cases)
         imp = ["Lib.Base", "Lib.PyStr", "Model.ClientAuthn"]
-        ctx.coq_check_cases(imp, "case", "chk_case", cases, shard=150, label="authn", diag="diag_case")
-        ctx.notes.append("%d configurations (histories), %d requests" % (len(cfgs), len(cases)))
+        bad = ctx.coq_check_cases(imp, "hcase", "chk_history", cases, shard=4, label="authn", diag="diag_history")
+        ctx.traces += sum(len(r["steps"]) for _, r in cases) - len(cases)     # count requests, not histories
+        ctx.notes.append("%d configurations (histories), %d requests" % (len(cfgs), sum(len(r["steps"]) for _, r in cases)))
         ctx.notes.append("tolerated by the property text, counted only: assertions without exp never expire, assertions "
                          "without jti are replayable until exp, 15 s skew after exp, bearer tokens resolve without a liveness check")
     finally:
